@@ -20,6 +20,7 @@ from ..common import Check, scratch_root
 from ..tlaval import cps
 
 LEVEL = "model_checking"
+RULE = ('cases = Gen_PathFilter/Globs.tla (include, exclude) pattern lists over a tree of paths, plus end-to-end CLI runs; non-trivial when at least one pattern is given and the lists select a proper, non-empty part of the tree; distinct = distinct (mode, include, exclude)')
 
 FF_TRIGGER = "x = set([1, 2])\n"
 SAST_TRIGGER = "import random\nrandom.random()\n"
